@@ -59,7 +59,68 @@ def pointer_sort_cases(rng):
     return cases
 
 
+def enc_r(doc):
+    """G.enc plus real members (token r<16 hex digits of the bit pattern>)"""
+    if doc[0] == "r":
+        return T._r(doc[1])
+    if doc[0] == "a":
+        return ",".join(["a%d" % len(doc[1])] + [enc_r(d) for d in doc[1]])
+    if doc[0] == "o":
+        return ",".join(["o%d" % len(doc[1])] + ["k" + G.dots(key) + "," + enc_r(d) for key, d in doc[1]])
+    if doc[0] == "p":
+        return "p," + enc_r(doc[1])
+    return G.enc(doc)
+
+
+def group_cases(rng):
+    """loops with group= whose grouping member is a number (unsigned, signed, real), a string, true/false/null:
+    the grouped copy and every scratch used to build its keys must be private to the render (threads)"""
+    cases = []
+    for _ in range(80):
+        n = rng.randrange(2, 9)
+        kind = rng.choice(["n", "i", "r", "s", "mixed"])
+        items = []
+        for j in range(n):
+            kk = kind if kind != "mixed" else rng.choice(["n", "i", "r", "s", "t"])
+            if kk == "n":
+                key = ("n", rng.choice([2019, 2020, 2021, 7, 18446744073709551615]))
+            elif kk == "i":
+                key = ("i", rng.choice([-1, -2020, -5, -9223372036854775808]))
+            elif kk == "r":
+                key = ("r", rng.choice([1.5, 2.25, -0.5, 1e21, 3.0]))
+            elif kk == "s":
+                key = ("s", G.U(rng.choice(["a", "bb", "2020"])))
+            else:
+                key = rng.choice([("t",), ("f",), ("z",)])
+            items.append(("o", [(G.U("k"), key), (G.U("m"), ("n", j))]))
+        doc = ("o", [(G.U("l"), ("a", items)), (G.U("n"), ("n", 1))])
+        srt = rng.choice(["", ' sort="ascend"', ' sort="descend"'])
+        tmpl = '<loop set="l" value="g" group="k"%s><loop set="g" value="it">{var:it[m]},</loop>;</loop>{var:n}' % srt
+        cases.append((doc, G.U(tmpl)))
+    return cases
+
+
+def mutable_statics():
+    """C17's interleaving theorem assumes that a render step writes only per-call state. Function-local or
+    class-level mutable `static` objects in the library headers are shared by every thread: list them."""
+    import os, re
+    hits = []
+    inc = os.path.join(core.REPO, "Include")
+    for fn in sorted(os.listdir(inc)):
+        if not fn.endswith(".hpp") or fn == "QTest.hpp":     # QTest.hpp is the repository's test harness, not the library
+            continue
+        for no, line in enumerate(open(os.path.join(inc, fn), errors="replace"), 1):
+            t = line.split("//")[0]
+            if re.match(r"^\s*(thread_local\s+)?static\s", t) and not re.match(r"^\s*static\s+(constexpr|const|inline)\b", t) and "(" not in t:
+                hits.append("%s:%d: %s" % (fn, no, t.strip()[:120]))
+    return hits
+
+
 def run(ctx):
+    st = mutable_statics()
+    ctx.notes.append({"mutable_static_objects_in_headers": st})
+    if st:
+        ctx.proof_broken.append("mutable static objects in the library headers (shared by all threads; the step-shape hypothesis of interleave_independent is no longer validated): %s" % st[:5])
     ctx.gen_constants(["Expr", "Tmpl", "Escape"])
     ctx.prove(["Qentem.Props.C17"], THEOREMS)
     drv = ctx.build_driver()
@@ -79,7 +140,8 @@ def run(ctx):
         docs.append(doc)
         spec_lines.append("tplspec 1 %s %s" % (G.enc(doc), ",".join(toks)))
     spec_out, _ = core.run_lines_parallel(drv, spec_lines, jobs=12, env=None)
-    cases = pointer_sort_cases(rng)
+    cases = pointer_sort_cases(rng) + group_cases(rng)
+    n_fixed = len(cases)
     for doc, o in zip(docs, spec_out):
         t = o.split(" ")
         if len(t) == 4 and t[0] == "P":
@@ -88,8 +150,9 @@ def run(ctx):
     lines = []
     for k, (doc, units) in enumerate(cases):
         for w in ("1", "2") if k % 4 == 0 else ("1",):
-            lines.append("tplcache %s %s %s" % (w, G.enc(doc), core.show_units(units)))
-    thr_lines = [l.replace("tplcache", "tplthreads", 1) for l in lines[::5]]
+            lines.append("tplcache %s %s %s" % (w, enc_r(doc), core.show_units(units)))
+    GROUP = core.show_units(G.U(' group="'))
+    thr_lines = [l.replace("tplcache", "tplthreads", 1) for k, l in enumerate(lines) if k % 5 == 0 or GROUP in l]
     impl, faults = core.run_lines_parallel(exe, lines + thr_lines, jobs=12)
     all_lines = lines + thr_lines
     for i, kind, err in faults:
